@@ -42,6 +42,13 @@ CLAIMS.update({
             "method, add_self and every single skip/stop node and signal form (plus all 3^n assignments on small trees) "
             "the real iterator/visit() run is logged (visited ids, return value) and compared by TLC with the operators.",
             "5 C06"),
+    "C08": ("TLC checks on every shape in the bound and ALL 6^n verdict assignments that the operational scan "
+            "(FilterScan) equals the declarative characterisation (accepted + selected branches + ancestors), is closed "
+            "under parents and calls nothing below skip/select or after stop; for every shape (plus labelled forests "
+            "with clones and typed forests), start node and verdict assignment (exhaustive up to a size, sampled beyond; "
+            "verdict forms rotating over returned/raised instance/class) filter() on a fresh tree, filtered() and "
+            "copy(predicate=) are run and TLC compares kept set, order, the nodes the predicate was called on, "
+            "in-place = copying, and source untouched.", "5 C08"),
     "C09": ("For every labelled forest with clones in the bound (MC_Core states), every start node, add_self, pattern / "
             "predicate and limit k, and every index-access key kind, the real answer (or exception class) is compared by "
             "TLC with Search/FindFirst/GetItem; the match set of a pattern is computed by the harness with re.fullmatch.",
@@ -57,7 +64,7 @@ CLAIMS.update({
             "custom 4/6-tuples + list), repr form and join string is tokenised into segment indexes and compared by TLC.",
             "5 C16"),
 })
-QUERY = {"C06", "C09", "C10", "C15", "C16"}
+QUERY = {"C06", "C08", "C09", "C10", "C15", "C16"}
 TECHNIQUE = "TLA+ spec + TLC model checking; spec->code transition replay and code->spec trace validation by TLC"
 
 
